@@ -7,6 +7,7 @@
 //! (hence the phase under *every* key) and the phase under one generated key are compared.
 
 use crate::sch::*;
+use crate::sp::sp;
 use dashu_int::IBig;
 use poulpy_core::{
     GGSWRotate, GLWEAdd, GLWECopy, GLWEMulXpMinusOne, GLWENegate, GLWENormalize, GLWERotate, GLWEShift, GLWESub,
@@ -203,7 +204,10 @@ fn three<'a>(regs: &'a mut [Reg], r: usize, a: usize, b: usize) -> (&'a mut Reg,
     unsafe { (&mut *p.add(r), &*p.add(a), &*p.add(b)) }
 }
 
-fn run<B: FullBackend>(m: &Module<B>, c: &Case) -> Verdict {
+fn run<B: FullBackend>(m: &Module<B>, c: &Case) -> Verdict
+where
+    poulpy_hal::layouts::Scratch<B>: poulpy_hal::api::ScratchFromBytes<B>,
+{
     let n = m.n();
     let b = c.base2k as usize;
     let bx = c.base2k_x as usize;
@@ -386,7 +390,19 @@ fn run<B: FullBackend>(m: &Module<B>, c: &Case) -> Verdict {
         }
         // ---- implementation ----------------------------------------------------
         let call = guarded(|| {
-            let sc = scratch.borrow();
+            let (site, q_): (&'static str, usize) = match op {
+                OpK::RotateAssign => ("glwe_rotate_assign", m.glwe_rotate_tmp_bytes()),
+                OpK::MulXpMinusOneAssign => ("glwe_mul_xp_minus_one_assign", m.glwe_rotate_tmp_bytes()),
+                OpK::Rsh => ("glwe_rsh", m.glwe_shift_tmp_bytes()),
+                OpK::LshAssign => ("glwe_lsh_assign", m.glwe_shift_tmp_bytes()),
+                OpK::Lsh => ("glwe_lsh", m.glwe_shift_tmp_bytes()),
+                OpK::LshAdd => ("glwe_lsh_add", m.glwe_shift_tmp_bytes()),
+                OpK::LshSub => ("glwe_lsh_sub", m.glwe_shift_tmp_bytes()),
+                OpK::Normalize => ("glwe_normalize", m.glwe_normalize_tmp_bytes()),
+                OpK::NormalizeAssign => ("glwe_normalize_assign", m.glwe_normalize_tmp_bytes()),
+                _ => ("", 0),
+            };
+            let sc = if site.is_empty() { scratch.borrow() } else { sp(site, q_, &mut scratch) };
             match op {
                 OpK::AddInto => {
                     let (rr, ra, rb) = three(&mut regs, r, a, bb);
@@ -547,7 +563,10 @@ pub struct GgswCase {
     pub seed: u64,
 }
 
-fn ggsw_run<B: FullBackend>(m: &Module<B>, c: &GgswCase) -> Verdict {
+fn ggsw_run<B: FullBackend>(m: &Module<B>, c: &GgswCase) -> Verdict
+where
+    poulpy_hal::layouts::Scratch<B>: poulpy_hal::api::ScratchFromBytes<B>,
+{
     let n = m.n();
     let b = c.base2k.clamp(2, 40) as usize;
     let rank = c.rank.clamp(1, 3) as usize;
@@ -579,7 +598,7 @@ fn ggsw_run<B: FullBackend>(m: &Module<B>, c: &GgswCase) -> Verdict {
     let mut scratch = pzv_be::dirty_scratch::<B>(m.ggsw_rotate_tmp_bytes() + 4096);
     if c.inplace {
         res = a.clone();
-        m.ggsw_rotate_assign(c.k, &mut res, scratch.borrow());
+        m.ggsw_rotate_assign(c.k, &mut res, sp("ggsw_rotate_assign", m.ggsw_rotate_tmp_bytes(), &mut scratch));
     } else {
         m.ggsw_rotate(c.k, &mut res, &a);
     }
